@@ -69,6 +69,8 @@ def jobs(tier):
     for n in range(1, nt + 1):
         ns = 1 if n < 3 else (16 if n == 3 else 128)
         js += [('trees', n, 2 if tier == 'quick' else 3, sh, ns, None) for sh in range(ns)]
+    # a definition without a title directly followed by a paragraph whose first words read as a title once they stand on a line of their own
+    js += [('titlecap', ch) for ch in chains(b['depth'])]
     # every spelling of every leaf block in six contexts (thorough; quick: the two container contexts)
     js += [j + (tier,) for j in leafspell.jobs()]
     # every spelling of every inline construct inside a paragraph that is re-flowed (meaning and idempotence under every L)
@@ -260,6 +262,42 @@ def judge(m, w, Ls, h_ref, bystander, by_lines=(), length_clause=True):
     return None
 
 
+TITLECAP_DEFS = ['[lab]: /d', '[lab]: </d e>', '[lab]:  /d  ']
+TITLECAP_FIRST = ['w0', '"w1"', "'w1'", '(w1)', '"w1', 'w1"', '"w1 w2"', '("w1")', '"" w1']
+TITLE_LIKE = re.compile(r'^("[^"]*"|\'[^\']*\'|\([^()]*\))(\s|$)')
+
+
+def titlecap_finding(first):
+    """class: the paragraph glued to a title-less definition begins with a complete title form; symptom: the re-flowed document's HTML is
+    the input's HTML minus exactly that token (it went into the definition; a non-empty one shows as the links' title attribute)"""
+    mo = TITLE_LIKE.match(first + ' ')
+    if not mo:
+        return None
+    toks = [mo.group(1), mo.group(1).replace('"', '&quot;')]
+
+    def sym(f):
+        if f['sig'] not in ('reflow-changes-meaning', 'reflow-not-idempotent') or not f.get('expected') or not f.get('observed'):
+            return None
+        if any(re.sub(r' title="[^"]*"', '', f['observed']) == f['expected'].replace(tok + ' ', '', 1) != f['expected'] for tok in toks):
+            return 'KF-C10-title-captured-after-definition'
+        return None
+    return sym
+
+
+def run_titlecap(r, chain):
+    for d in TITLECAP_DEFS:
+        for first in TITLECAP_FIRST:
+            for glued in (True, False):
+                inner = [d] + ([] if glued else ['']) + [first + ' w3 w4 [lab]']
+                body, _ = embed(inner, chain)
+                m = '\n'.join(body) + '\n'
+                r.states += 1
+                check_doc(r, m, None, dict(markdown=m, bystander=None, by_lines=[], length_clause=False, titlecap=[first, glued]), (), length_clause=False,
+                          kf_for=titlecap_finding(first) if glued else None)
+    r.sample(dict(space='definition then title-like words', chain=chain), 1)
+    return r
+
+
 def run_job(job):
     r = core.Result()
     if job[0] == 'trees':
@@ -273,6 +311,8 @@ def run_job(job):
                 check_doc(r, m, None, dict(markdown=m, bystander=None, by_lines=[], length_clause=False), (), length_clause=False)
         r.sample(dict(space='generated trees', nodes=n), 1)
         return r
+    if job[0] == 'titlecap':
+        return run_titlecap(r, job[1])
     if job[0] == 'inlinespell':
         ctxs = ['paragraph-mid', 'tight list item', 'block quote', 'emphasis'] if job[3] == 'thorough' else ['block quote', 'tight list item']
         for case in inlinespell.cases_of_job(job[:3]):
@@ -340,4 +380,7 @@ def replay(case):
     f = judge(m, w, [L], h_ref, case.get('bystander'), case.get('by_lines') or (), case.get('length_clause', True))
     if f:
         f['kf'] = classify(m, f)
+        if not f['kf'] and case.get('titlecap') and case['titlecap'][1]:
+            fn = titlecap_finding(case['titlecap'][0])
+            f['kf'] = fn(f) if fn else None
     return f
